@@ -312,7 +312,7 @@ jose_openssl_jwk_to_RSA(jose_cfg_t *cfg, const json_t *jwk)
     DP = bn_decode_json(dp);
     DQ = bn_decode_json(dq);
     QI = bn_decode_json(qi);
-    if ((!n || N) && (!e || E) && (!p || P) && (!q || Q) &&
+    if ((!n || N) && (!e || E) && (!d || D) && (!p || P) && (!q || Q) &&
         (!dp || DP) && (!dq || DQ) && (!qi || QI)) {
         if (RSA_set0_key(rsa, N, E, D) > 0) {
             N = NULL;
@@ -339,6 +339,7 @@ jose_openssl_jwk_to_RSA(jose_cfg_t *cfg, const json_t *jwk)
 
     BN_free(N);
     BN_free(E);
+    BN_free(D);
     BN_free(P);
     BN_free(Q);
     BN_free(DP);
